@@ -290,6 +290,28 @@ def run(ctx):
                     ctx.check(sgn in seen_signs, "R12.5", g, "sign-reaches-access:" + sgn, "no path with a %s index reaches the access" % ("negative" if sgn == "neg" else "non-negative"), g)
         ctx.check(len(ats) >= 1 and not raw, "R12.5", g, "range-checked-access", "positionals are accessed with unchecked operator[]: an index outside [-n, n) reads out of bounds instead of raising", g)
 
+    # the subscript spelling is the same index space: it hands a SIGNED index on to get() unchanged (or normalises itself)
+    subs = [f for f in prog.methods_of(NS + "arguments") if f.op == "[]" and f.has_cfg and len(f.params) == 1]
+    ctx.need("R12.5", "arguments::operator[]", len(subs), 1)
+    for f in subs:
+        p0 = f.params[0]
+        ctx.check(not p0.get("u"), "R12.5", f, "subscript-index-is-signed", "operator[] takes its index as `%s`: index -k cannot be expressed, `args[-1]` becomes a huge position and raises out_of_range" % p0.get("type"), f,
+                  why_ok=p0.get("type"))
+        rets = [ir.unwrap(e["expr"].get("e")) for _, _, e in f.roots() if e["expr"].get("k") == "return"]
+        deleg = len(rets) == 1 and isinstance(rets[0], dict) and rets[0].get("k") == "call" and short(rets[0].get("name") or "") == "get" \
+            and [fmt(ir.unwrap(a)) for a in rets[0].get("args", [])] == [p0["name"]] and len(list(f.roots())) == 1
+        if deleg:
+            ctx.ok("R12.5", f, "subscript-normalises", "return get(%s)" % p0["name"], f)
+        else:
+            ats2 = [(bid, i, e, n) for bid, i, e in f.roots() for n in walk(e["expr"], into_sc=False)
+                    if n.get("k") == "call" and short(n.get("name") or "") == "at" and "positionals" in fmt(n.get("this"))]
+            res2 = _index_by_sign(f, p0["name"], ats2)
+            if res2 is None or isinstance(res2, str) or not res2:
+                ctx.broken("R12.5", f, "subscript-normalises", "operator[] neither returns get(%s) nor accesses positionals through at() in an evaluable form (%s)" % (p0["name"], res2 or "no at() call"), f)
+            else:
+                good = all((sign == "neg" and lin == {"i": 1, "S": 1}) or (sign == "nonneg" and lin == {"i": 1}) for sign, lin, ln in res2) and {sg for sg, _, _ in res2} == {"neg", "nonneg"}
+                ctx.check(good, "R12.5", f, "subscript-normalises", "operator[] accesses %s: a negative index is not counted from the end (only get() does that)"
+                          % ", ".join("at(%s) for a %s index" % (_show_lin(lin), {"neg": "negative", "nonneg": "non-negative", "any": "any"}[sign]) for sign, lin, ln in res2), f)
     # ---- R12.7: the accepted count and the greedy switch are independent settings
     ctx.rule("R12.7", "who-may-write: the accepted count is set only by accept_positionals(), the greedy switch only by greedy_postionals() (neither setting changes the other)")
     SETTERS = {NS + "parser::allowed_positionals_": "accept_positionals", NS + "parser::greedy_positionals_": "greedy_postionals"}
